@@ -96,7 +96,7 @@ def Reduction.resultType (r : Reduction) (dt : DType) : DType :=
 inductive Val (δ : Type) where
   | i (n : Int)
   | d (x : δ)
-deriving Repr
+deriving Repr, DecidableEq
 
 /-- The tsquery data type matching the dynamic Go type. -/
 def Val.dtype : Val δ → DType
@@ -325,6 +325,13 @@ structure DS (δ : Type) where
   required : Bool
   recs : List (Rec (Val δ))
 
+/-- `tsJoiner` of `InnerJoinStreams` (timeseries_stream_join.go:59-74) around the reducer function: the
+joined row carries the timestamp of the first input's record and the reduction of all values. -/
+def rowOf (D : Dec δ) (r : Reduction) (dt : DType) (hs : List (Rec (Val δ))) : Except Err (Rec (Val δ)) :=
+  match hs with
+  | [] => .error .panicIndex
+  | h :: _ => (reducerFunc D r dt (hs.map (·.v))).map (fun v => { ts := h.ts, v := v })
+
 /-- lines 186-189: `timeseries.InnerJoinStreams(streams, reducerFunc)` collected. -/
 def joinedData (D : Dec δ) (r : Reduction) (dt : DType) (aligned : List (SRes (Rec (Val δ)))) :
     SRes (Rec (Val δ)) :=
@@ -332,10 +339,7 @@ def joinedData (D : Dec δ) (r : Reduction) (dt : DType) (aligned : List (SRes (
   | some a => ([], a.2)        -- (unsorted input only) an aligner failed
   | none =>
     let rows := joinStreams (fun (x : Rec (Val δ)) => x.ts.inst) (aligned.map (·.1))
-    let out := mapUntilErr (fun (hs : List (Rec (Val δ))) =>
-      match hs with
-      | [] => .error Err.panicIndex
-      | h :: _ => (reducerFunc D r dt (hs.map (·.v))).map (fun v => ({ ts := h.ts, v := v } : Rec (Val δ)))) rows.1
+    let out := mapUntilErr (rowOf D r dt) rows.1
     (out.1, match out.2 with | some e => some e | none => rows.2)
 
 /-- lines 181-189: the data stream of the result, given the aligned inputs. -/
@@ -360,5 +364,21 @@ def reductionDatasource (D : Dec δ) (p : Period) (r : Reduction) (dss : List (D
     | .error e => .error e
     | .ok dt =>
       .ok (r.resultType dt, reductionData D r dt (dss.map (fun ds => alignFilter D p ds.dtype ds.recs)))
+
+/-! ### list-level specification of the inner join (used by the theorems) -/
+
+/-- The element with key `k` of every list, in list order (none if some list has no such element). -/
+def lookups {α : Type} (key : α → Int) (k : Int) : List (List α) → Option (List α)
+  | [] => some []
+  | t :: ts =>
+    match t.find? (fun y => key y == k), lookups key k ts with
+    | some y, some ys => some (y :: ys)
+    | _, _ => none
+
+/-- One row per element of the first list whose key occurs in ALL other lists; the row holds the
+elements with that key, in list order. -/
+def commonRows {α : Type} (key : α → Int) : List (List α) → List (List α)
+  | [] => []
+  | s :: rest => s.filterMap (fun x => (lookups key (key x) rest).map (x :: ·))
 
 end ShpanVerif.Model.Reduce
